@@ -152,6 +152,17 @@ class TokString(Token):
         super().__init__(*args, **kwargs)
 
     @property
+    def value(self):
+        """The string value of the literal."""
+        if self._multiline_quote is not None:
+            # A line break directly after the opening bracket is not part of
+            # the string.
+            for newline in (b'\r\n', b'\n\r', b'\n', b'\r'):
+                if self._data.startswith(newline):
+                    return self._data[len(newline):]
+        return self._data
+
+    @property
     def code(self):
         if self._multiline_quote is not None:
             return (b'[' + self._multiline_quote + b'[' +
